@@ -98,6 +98,27 @@ func genSet(rng *rand.Rand, pool []string, max int, pfx string) map[string]strin
 	return m
 }
 
+var forwardingSpellings = [][]string{
+	{"X-Forwarded-Proto", "x-forwarded-proto", "X-FORWARDED-PROTO", "x-Forwarded-pRoTo"},
+	{"X-Forwarded-Host", "x-forwarded-host", "X-forwarded-HOST"},
+	{"X-Forwarded-For", "x-forwarded-for", "X-FORWARDED-FOR"},
+}
+
+// addForwardingSet adds 1-3 of X-Forwarded-Proto / -Host / -For (any spelling) to a requestHeaders.set map.
+func addForwardingSet(rng *rand.Rand, m map[string]string, i int) map[string]string {
+	if m == nil {
+		m = map[string]string{}
+	}
+	vals := []string{pick(rng, "https", "wss", "HTTPS"), fmt.Sprintf("public%d.example.com", i), fmt.Sprintf("192.0.2.%d", 1+i%250)}
+	first := rng.Intn(3)
+	n := 1 + rng.Intn(3)
+	for j := 0; j < n; j++ {
+		w := (first + j) % 3
+		m[pick(rng, forwardingSpellings[w]...)] = vals[w]
+	}
+	return m
+}
+
 // buildTopology generates nCfg route configurations and starts everything.
 func buildTopology(nCfg int) error {
 	pa := h.Ports(prop)
@@ -174,6 +195,14 @@ func buildTopology(nCfg int) error {
 				rc.PlugRewriteHost = fmt.Sprintf("plug%d.internal.example:8443", i)
 			}
 			rc.PlugReqSet = genSet(rng, setNamePool, 2, fmt.Sprintf("plug%d", i))
+		}
+		// forwarding headers declared by configuration (frps behind a TLS-terminating balancer: the backend must be
+		// told the public scheme / name): every third route at frps, every third plugin route in the plugin
+		if !rc.viaHTTPS() && (i%3 == 0 || rng.Intn(6) == 0) {
+			rc.ReqSet = addForwardingSet(rng, rc.ReqSet, i)
+		}
+		if rc.plugin() && (i%3 == 1 || rng.Intn(6) == 0) {
+			rc.PlugReqSet = addForwardingSet(rng, rc.PlugReqSet, 100+i)
 		}
 		rc.Enc = rng.Intn(2) == 0
 		rc.Comp = rng.Intn(2) == 0
